@@ -142,6 +142,15 @@ func build(r *rand.Rand, idx int) *kase {
 			}
 		} else {
 			o.Placement = placements[pick(r, 5, 2, 2)]
+			if kind == "file" && r.Intn(3) == 0 {
+				// declared as sourced from a (defined) variable by the main or an included file, turned
+				// into a file object by the override file: the variable's value has no business anywhere
+				o.Placement = []string{"to-file", "include-to-file"}[r.Intn(2)]
+				d2 := decorations[r.Intn(len(decorations))]
+				o.OldCanary, o.OldCores = d2.mk(r)
+				o.OldVar = fmt.Sprintf("C20_%s_%d_OLD", strings.ToUpper(o.Name), r.Intn(1000))
+				env[o.OldVar] = o.OldCanary
+			}
 		}
 		k.Objects = append(k.Objects, o)
 	}
@@ -240,6 +249,13 @@ func build(r *rand.Rand, idx int) *kase {
 		case "include-repoint":
 			put("include", o.Section, o.Name, body(o, o.OldVar, true))
 			put("override", o.Section, o.Name, "    environment: "+q(o.Var)+"\n")
+		case "to-file", "include-to-file":
+			first := "main"
+			if o.Placement == "include-to-file" {
+				first = "include"
+			}
+			put(first, o.Section, o.Name, "    environment: "+q(o.OldVar)+"\n")
+			put("override", o.Section, o.Name, "    environment: !reset null\n    file: ./data/"+o.Name+".txt\n")
 		}
 	}
 
